@@ -532,6 +532,24 @@ func c13run(args []string) error {
 		c := row.Case
 		got := map[string]interface{}{}
 		pan := recoverStr(func() {
+			if c["kind"] == "kxhalf" {
+				// one party only; the peer's static and ephemeral values are given as points
+				d, r := privOf(c["d"].(string)), privOf(c["r"].(string))
+				pt := func(xk, yk string) *sm2.PublicKey {
+					return &sm2.PublicKey{Curve: sm2.P256Sm2(), X: hx(c[xk].(string)), Y: hx(c[yk].(string))}
+				}
+				ida, idb := idBytes(c["ida"].(map[string]interface{})), idBytes(c["idb"].(map[string]interface{}))
+				klen := int(c["klen"].(float64))
+				var k, s1, s2 []byte
+				var e error
+				if c["role"] == "a" {
+					k, s1, s2, e = sm2.KeyExchangeA(klen, ida, idb, d, pt("ppx", "ppy"), r, pt("prx", "pry"))
+				} else {
+					k, s1, s2, e = sm2.KeyExchangeB(klen, ida, idb, d, pt("ppx", "ppy"), r, pt("prx", "pry"))
+				}
+				got["half"] = map[string]interface{}{"k": ints(k), "s1": ints(s1), "s2": ints(s2), "err": e != nil}
+				return
+			}
 			da, db, ra, rb := privOf(c["da"].(string)), privOf(c["db"].(string)), privOf(c["ra"].(string)), privOf(c["rb"].(string))
 			ida, idb := idBytes(c["ida"].(map[string]interface{})), idBytes(c["idb"].(map[string]interface{}))
 			klen := int(c["klen"].(float64))
